@@ -1,7 +1,256 @@
 /-
-Model of rumqttd/src/segments/{mod.rs, segment.rs}: `CommitLog<T>` and `Segment<T>`.
-u64/usize as Nat. This file is the version used by the router model; the C13 slice states and
-proves the read/retention theorems about it.
+Model of the broker commit log:
+  rumqttd/src/segments/mod.rs     (`CommitLog::{new, next_offset, append, apply_retention, last, readv}`)
+  rumqttd/src/segments/segment.rs (`Segment::{new, with_offset, next_offset, push, readv, last}`)
+
+The text of the Rust functions is followed statement by statement. `u64`/`usize` are `Nat`.
+Everything that can panic in the dev profile is an explicit `Except.error`:
+  * `a - b` on unsigned integers        -> `subOverflow`   (`cursor.1 - absolute_offset`, `cursor.0 - head`, `len -= ..`)
+  * `idx + len` (`len` is caller input) -> `addOverflow`   (checked against `U64 = 2^64`)
+  * `self.segments[idx]`                -> `indexOob`
+  * `self.data[idx..limit]`             -> `sliceRange`
+  * `front()/back().unwrap()`           -> `unwrapNone`
+  * the two `panic!`s in `new`          -> `config`
+Additions that only involve the log's own counters (`absolute_offset + len`, `tail += 1`,
+`head += 1`, `total_size += size`, `cursor.1 + limit` with `cursor.1 < next_offset`,
+`cursor.0 + 1` with `cursor.0 < tail`) stay in `Nat`: they need about 2^63 appended entries
+or bytes to wrap (listed as an assumption in the manifest).
+`Vec`/`VecDeque` are lists (oldest first; the last element is the active segment);
+`T: Storage` is an arbitrary `α` whose `size()` is passed to `append` (it is evaluated once, in `push`).
+The `while cursor.0 < self.tail` loop is `walk`, structurally recursive on `fuel = tail - cursor.0`
+(`cursor.0` grows by exactly one per iteration, so `fuel = 0` is exactly the loop exit).
+Import-free: compiled into the native driver.
+-/
+namespace CommitLog
+
+/-- `u64::MAX + 1` (= `usize::MAX + 1` on the 64-bit targets the broker is built for) -/
+def U64 : Nat := 18446744073709551616
+
+inductive Panic
+  | subOverflow | addOverflow | indexOob | sliceRange | unwrapNone | config
+  deriving DecidableEq, Repr
+
+/-- `(segment index, absolute offset)` — `Cursor` and `Offset` in `lib.rs` -/
+abbrev Cursor := Nat × Nat
+/-- an element of the `out` vector of `readv` -/
+abbrev Entry (α : Type) := α × Cursor
+
+structure Seg (α : Type) where
+  data : List α
+  totalSize : Nat
+  abs : Nat
+  deriving Repr
+
+/-- `SegmentPosition` -/
+inductive SegPos
+  | next (o : Nat)
+  | done (o : Nat)
+  deriving DecidableEq, Repr
+
+/-- `Position` -/
+inductive Position
+  | next (start end_ : Cursor)
+  | done (start end_ : Cursor)
+  deriving DecidableEq, Repr
+
+def Position.isDone : Position → Bool
+  | .next _ _ => false
+  | .done _ _ => true
+def Position.start : Position → Cursor
+  | .next s _ => s
+  | .done s _ => s
+def Position.end_ : Position → Cursor
+  | .next _ e => e
+  | .done _ e => e
+
+variable {α : Type}
+
+/-- the panic of a result, if any (`Except` has no `DecidableEq`; used for concrete witnesses) -/
+def panicOf {β : Type} : Except Panic β → Option Panic
+  | .ok _ => none
+  | .error e => some e
+
+/-- `Segment::new` -/
+def Seg.new : Seg α := { data := [], totalSize := 0, abs := 0 }
+/-- `Segment::with_offset` -/
+def Seg.withOffset (absoluteOffset : Nat) : Seg α := { data := [], totalSize := 0, abs := absoluteOffset }
+/-- `Segment::len` -/
+def Seg.len (s : Seg α) : Nat := s.data.length
+/-- `Segment::next_offset` -/
+def Seg.next (s : Seg α) : Nat := s.abs + s.len
+/-- `Segment::push` -/
+def Seg.push (s : Seg α) (x : α) (size : Nat) : Seg α :=
+  { s with data := s.data ++ [x], totalSize := s.totalSize + size }
+/-- `Segment::last` -/
+def Seg.last (s : Seg α) : Option α := s.data.getLast?
+
+/-- `self.data[idx..limit].iter().cloned().zip(repeat(cursor.0).zip(cursor.1..cursor.1 + limit))` -/
+def Seg.slice (s : Seg α) (cur : Cursor) (idx limit : Nat) : List (Entry α) :=
+  (((s.data.drop idx).take (limit - idx)).zip (List.range' cur.2 limit)).map
+    fun p => (p.1, (cur.1, p.2))
+
+/-- `Segment::readv`; returns what is appended to `out` and the segment position. -/
+def Seg.readv (s : Seg α) (cur : Cursor) (len : Nat) : Except Panic (List (Entry α) × SegPos) :=
+  if cur.2 < s.abs then .error .subOverflow else          -- let idx = cursor.1 - self.absolute_offset;
+  let idx := cur.2 - s.abs
+  if idx ≥ s.len then .ok ([], .done s.next)              -- ret = None, nothing read
+  else if idx + len ≥ U64 then .error .addOverflow        -- let mut limit = idx + len;
+  else
+    let limit0 := idx + len
+    if limit0 ≥ s.len then
+      -- ret = None; limit = self.len()
+      if s.len < idx then .error .sliceRange              -- data[idx..limit] needs idx <= limit <= len
+      else .ok (s.slice cur idx s.len, .done s.next)
+    else
+      -- ret = Some(limit)
+      if limit0 < idx ∨ s.len < limit0 then .error .sliceRange
+      else .ok (s.slice cur idx limit0, .next (s.abs + limit0))
+
+structure Log (α : Type) where
+  head : Nat
+  tail : Nat
+  maxSegmentSize : Nat
+  maxMemSegments : Nat
+  segments : List (Seg α)
+  deriving Repr
+
+/-- `CommitLog::new` -/
+def Log.new (maxSegmentSize maxMemSegments : Nat) : Except Panic (Log α) :=
+  if maxSegmentSize < 1024 then .error .config
+  else if maxMemSegments < 1 then .error .config
+  else .ok { head := 0, tail := 0, maxSegmentSize := maxSegmentSize,
+             maxMemSegments := maxMemSegments, segments := [Seg.new] }
+
+/-- `active_segment()` = `self.segments.back().unwrap()` -/
+def Log.activeSegment (l : Log α) : Except Panic (Seg α) :=
+  match l.segments.getLast? with
+  | none => .error .unwrapNone
+  | some s => .ok s
+
+/-- `CommitLog::next_offset` -/
+def Log.nextOffset (l : Log α) : Except Panic Cursor :=
+  match l.activeSegment with
+  | .error e => .error e
+  | .ok a => .ok (l.tail, a.next)
+
+/-- `CommitLog::last` -/
+def Log.last (l : Log α) : Except Panic (Option α) :=
+  match l.activeSegment with
+  | .error e => .error e
+  | .ok a => .ok a.last
+
+/-- `CommitLog::_head_and_tail` and `memory_segments_count` (printed by the harness after appends) -/
+def Log.headTailCount (l : Log α) : Nat × Nat × Nat := (l.head, l.tail, l.segments.length)
+
+/-- `apply_retention` -/
+def Log.applyRetention (l : Log α) : Except Panic (Log α) :=
+  match l.activeSegment with
+  | .error e => .error e
+  | .ok act =>
+    if act.totalSize ≥ l.maxSegmentSize then
+      let absoluteOffset := act.next
+      if l.segments.length ≥ l.maxMemSegments then
+        -- self.segments.pop_front(); self.head += 1; push_back(with_offset); self.tail += 1
+        .ok { l with segments := l.segments.drop 1 ++ [Seg.withOffset absoluteOffset],
+                     head := l.head + 1, tail := l.tail + 1 }
+      else
+        .ok { l with segments := l.segments ++ [Seg.withOffset absoluteOffset], tail := l.tail + 1 }
+    else .ok l
+
+/-- `active_segment_mut().push(message)` -/
+def Log.pushActive (l : Log α) (x : α) (size : Nat) : Except Panic (Log α) :=
+  match l.segments.getLast? with
+  | none => .error .unwrapNone
+  | some act => .ok { l with segments := l.segments.dropLast ++ [act.push x size] }
+
+/-- `CommitLog::append` (size = `message.size()`) -/
+def Log.append (l : Log α) (x : α) (size : Nat) : Except Panic (Log α × Cursor) :=
+  match l.applyRetention with
+  | .error e => .error e
+  | .ok l1 =>
+    match l1.pushActive x size with
+    | .error e => .error e
+    | .ok l2 =>
+      match l2.nextOffset with
+      | .error e => .error e
+      | .ok c => .ok (l2, c)
+
+/-- a sequence of appends -/
+def Log.appends (l : Log α) : List (α × Nat) → Except Panic (Log α)
+  | [] => .ok l
+  | p :: ps =>
+    match l.append p.1 p.2 with
+    | .error e => .error e
+    | .ok r => Log.appends r.1 ps
+
+/-- the part of `readv` after the `while` loop: the separate read of the active segment -/
+def readActive (start : Cursor) (curr : Seg α) (cur : Cursor) (len : Nat) (out : List (Entry α)) :
+    Except Panic (List (Entry α) × Position) :=
+  if curr.next ≤ cur.2 then .ok (out, .done start cur) else
+  match curr.readv cur len with
+  | .error e => .error e
+  | .ok (o, .next v) => .ok (out ++ o, .next start (cur.1, v))
+  | .ok (o, .done v) => .ok (out ++ o, .done start (cur.1, v))
+
+/-- `len -= next_offset - cursor.1` guarded by `if next_offset >= cursor.1` -/
+def decLen (len nxt c2 : Nat) : Except Panic Nat :=
+  if nxt ≥ c2 then
+    if len < nxt - c2 then .error .subOverflow else .ok (len - (nxt - c2))
+  else .ok len
+
+/-- the `while cursor.0 < self.tail` loop followed by the active-segment read.
+    `fuel = tail - cursor.0`, `curr = segments[idx]`. -/
+def Log.walk (l : Log α) (start : Cursor) :
+    Nat → Nat → Seg α → Cursor → Nat → List (Entry α) → Except Panic (List (Entry α) × Position)
+  | 0, _, curr, cur, len, out => readActive start curr cur len out
+  | fuel + 1, idx, curr, cur, len, out =>
+    match curr.readv cur len with
+    | .error e => .error e
+    | .ok (o, .next off) => .ok (out ++ o, .next start (cur.1, off))
+    | .ok (o, .done nxt) =>
+      match decLen len nxt cur.2 with
+      | .error e => .error e
+      | .ok len' =>
+        if len' = 0 then .ok (out ++ o, .next start (cur.1 + 1, nxt))
+        else
+          match l.segments[idx + 1]? with            -- idx += 1; curr_segment = &self.segments[idx];
+          | none => .error .indexOob
+          | some curr' => Log.walk l start fuel (idx + 1) curr' (cur.1 + 1, nxt) len' (out ++ o)
+
+/-- `if cursor.0 < self.head { cursor = (head, front().unwrap().absolute_offset); start = cursor }` -/
+def Log.headJump (l : Log α) (c : Cursor) : Except Panic Cursor :=
+  if c.1 < l.head then
+    match l.segments.head? with
+    | none => .error .unwrapNone
+    | some f => .ok (l.head, f.abs)
+  else .ok c
+
+/-- `if curr_segment.absolute_offset > cursor.1 { start.1 = ..; cursor.1 = .. }` -/
+def offsetJump (curr : Seg α) (c : Cursor) : Cursor :=
+  if curr.abs > c.2 then (c.1, curr.abs) else c
+
+/-- `CommitLog::readv` (the entries appended to `out`, and the returned `Position`) -/
+def Log.readv (l : Log α) (start : Cursor) (len : Nat) : Except Panic (List (Entry α) × Position) :=
+  if start.1 > l.tail then .ok ([], .done start start) else
+  match l.headJump start with
+  | .error e => .error e
+  | .ok c1 =>
+    if c1.1 < l.head then .error .subOverflow else        -- (cursor.0 - self.head) as usize
+    let idx := c1.1 - l.head
+    match l.segments[idx]? with                           -- &self.segments[idx]
+    | none => .error .indexOob
+    | some curr =>
+      let c2 := offsetJump curr c1
+      Log.walk l c2 (l.tail - c2.1) idx curr c2 len []
+
+end CommitLog
+
+/-
+The totalised copy used by the router model (`Model/Router/*`; kept verbatim from the router
+slice): the same functions without the panic branches (`Nat` subtraction truncates, a missing
+segment yields an empty answer). `Proofs/Lemmas/CommitLogBridge.lean` proves that on every
+well-formed log it computes exactly what the panic-explicit model above computes
+(`C13.router_copy_*`), so the C13 theorems hold for the router's commit logs as well.
 -/
 namespace CLog
 
